@@ -31,6 +31,9 @@ type script struct {
 	earlyC, earlyT int
 	keyC, keyT     uint64
 	segC, segT     int // max write size
+	// lullC / lullT: the sender goes quiet for this long (longer than the proxy's idle and
+	// read-header timeouts) half way through its stream - or before its half-close if it sends nothing
+	lullC, lullT time.Duration
 }
 
 type sideResult struct {
@@ -45,7 +48,7 @@ type sideResult struct {
 
 // endpoint runs one side of a tunnel script on c. pre = bytes of the outgoing stream that
 // were already sent (early data coalesced with the head by the caller).
-func endpoint(c net.Conn, send, extra int, closesFirst bool, keyOut, keyIn uint64, seg int, pre int, r *lib.RNG, deadline time.Time) sideResult {
+func endpoint(c net.Conn, send, extra int, closesFirst bool, keyOut, keyIn uint64, seg int, pre int, r *lib.RNG, deadline time.Time, lull time.Duration) sideResult {
 	res := sideResult{mismatchAt: -1, sawEOFAt: -1}
 	c.SetDeadline(deadline)
 	peerEOF := make(chan struct{})
@@ -56,6 +59,10 @@ func endpoint(c net.Conn, send, extra int, closesFirst bool, keyOut, keyIn uint6
 		off := pre
 		write := func(upto int) bool {
 			for off < upto {
+				if lull > 0 && off >= send/2 {
+					time.Sleep(lull)
+					lull = 0
+				}
 				n := 1 + r.Intn(seg)
 				if n > upto-off {
 					n = upto - off
@@ -75,6 +82,10 @@ func endpoint(c net.Conn, send, extra int, closesFirst bool, keyOut, keyIn uint6
 		}
 		if !write(send) {
 			return
+		}
+		if lull > 0 {
+			time.Sleep(lull) // nothing was sent: the quiet period comes before the half-close
+			lull = 0
 		}
 		if !closesFirst {
 			select {
@@ -143,13 +154,18 @@ type tunnelRun struct {
 	r        *lib.RNG
 	deadline time.Time
 	done     chan sideResult
+	control  bool
 }
 
 // targetSide runs the target's half on an accepted connection.
 func targetSide(c net.Conn, tr *tunnelRun, pre int) {
 	s := tr.s
 	first := s.order == "target-first" || s.order == "simultaneous"
-	res := endpoint(c, s.nT, s.mT, first, s.keyT, s.keyC, s.segT, pre, tr.r.Sub(2), tr.deadline)
+	lull := s.lullT
+	if tr.control {
+		lull = 0
+	}
+	res := endpoint(c, s.nT, s.mT, first, s.keyT, s.keyC, s.segT, pre, tr.r.Sub(2), tr.deadline, lull)
 	c.Close()
 	tr.done <- res
 }
@@ -261,7 +277,15 @@ type route struct {
 func buildRoutes(ca *lib.CA) []*route {
 	var rs []*route
 	mk := func(name string, cfg func(*forwarder.HTTPProxyConfig), extra func()) {
-		p := lib.MustProxy(lib.ProxyOpts{Cfg: cfg, Transport: func(tc *forwarder.HTTPTransportConfig) {
+		// short limits: a tunnel outlives both of them whenever a side goes quiet for a while
+		withLimits := func(c *forwarder.HTTPProxyConfig) {
+			c.ReadHeaderTimeout = 400 * time.Millisecond
+			c.IdleTimeout = 800 * time.Millisecond
+			if cfg != nil {
+				cfg(c)
+			}
+		}
+		p := lib.MustProxy(lib.ProxyOpts{Cfg: withLimits, Transport: func(tc *forwarder.HTTPTransportConfig) {
 			tc.RedirectFunc = redirect
 			tc.CACertFiles = []string{lib.DataURI(ca.CertPEM)}
 		}})
@@ -333,11 +357,17 @@ func genScript(r *lib.RNG, key, route string, thorough bool) *script {
 	if s.nT > 200000 && s.segT == 7 {
 		s.segT = 1500
 	}
+	if r.Chance(1, 6) {
+		s.lullC = 1300 * time.Millisecond
+	}
+	if r.Chance(1, 6) {
+		s.lullT = 1300 * time.Millisecond
+	}
 	return s
 }
 
 func (s *script) shape() string {
-	return fmt.Sprintf("%s|%s|c=%s+%d|t=%s+%d|ec=%v|et=%v", s.route, s.order, lib.SizeClass(s.nC), s.mC, lib.SizeClass(s.nT), s.mT, s.earlyC > 0, s.earlyT > 0)
+	return fmt.Sprintf("%s|%s|c=%s+%d|t=%s+%d|ec=%v|et=%v|lull=%v/%v", s.route, s.order, lib.SizeClass(s.nC), s.mC, lib.SizeClass(s.nT), s.mT, s.earlyC > 0, s.earlyT > 0, s.lullC > 0, s.lullT > 0)
 }
 
 // runTunnel executes the script through route rt (or, for the control path, through a
@@ -345,7 +375,7 @@ func (s *script) shape() string {
 func runTunnel(run *lib.Run, hb *lib.Heartbeat, rt *route, s *script, r *lib.RNG, control bool) (cli, tgt sideResult, setupErr string, t0 time.Time) {
 	t0 = time.Now()
 	deadline := t0.Add(25 * time.Second)
-	tr := &tunnelRun{s: s, r: r, deadline: deadline, done: make(chan sideResult, 1)}
+	tr := &tunnelRun{s: s, r: r, deadline: deadline, done: make(chan sideResult, 1), control: control}
 	scripts.Store(s.key, tr)
 	defer scripts.Delete(s.key)
 	usesRaw := control || rt.name == "direct" || rt.name == "upstream-socks5" || rt.name == "connect-func"
@@ -397,7 +427,11 @@ func runTunnel(run *lib.Run, hb *lib.Heartbeat, rt *route, s *script, r *lib.RNG
 		}
 	}
 	first := s.order == "client-first" || s.order == "simultaneous"
-	cli = endpoint(c, s.nC, s.mC, first, s.keyC, s.keyT, s.segC, pre, r.Sub(1), deadline)
+	lull := s.lullC
+	if control {
+		lull = 0
+	}
+	cli = endpoint(c, s.nC, s.mC, first, s.keyC, s.keyT, s.segC, pre, r.Sub(1), deadline, lull)
 	c.Close()
 	select {
 	case tgt = <-tr.done:
@@ -408,7 +442,7 @@ func runTunnel(run *lib.Run, hb *lib.Heartbeat, rt *route, s *script, r *lib.RNG
 }
 
 func main() {
-	run := lib.Start("C03", "tunnel scripts (payload sizes 0..1 MiB (4 MiB thorough) per direction as self-describing offset streams, PRNG write segmentation 7 B..200 KB with pauses, 0..8 KiB of client data coalesced with the CONNECT/Upgrade head, 0..4000 B of target data sent with the 200/101 reply, half-close order client-first / target-first / simultaneous, post-EOF data from the second closer) through routes direct, upstream http, upstream https, socks5, custom connect function and HTTP/1.1 Upgrade; far endpoints verify every byte by offset, the EOF position and closure; each script is first run on a control path without the proxy; distinct = (route, order, size classes, early-data presence) signatures")
+	run := lib.Start("C03", "tunnel scripts (payload sizes 0..1 MiB (4 MiB thorough) per direction as self-describing offset streams, PRNG write segmentation 7 B..200 KB with pauses, in a third of the scripts a 1.3 s quiet period of one side (proxy idle-timeout 0.8 s, read-header-timeout 0.4 s), 0..8 KiB of client data coalesced with the CONNECT/Upgrade head, 0..4000 B of target data sent with the 200/101 reply, half-close order client-first / target-first / simultaneous, post-EOF data from the second closer) through routes direct, upstream http, upstream https, socks5, custom connect function and HTTP/1.1 Upgrade; far endpoints verify every byte by offset, the EOF position and closure; each script is first run on a control path without the proxy; distinct = (route, order, size classes, early-data presence) signatures")
 	hb := lib.StartHeartbeat()
 	root := run.RNG()
 	ca := lib.NewCA("verif CA")
@@ -452,7 +486,7 @@ func main() {
 
 func (s *script) describe() map[string]any {
 	return map[string]any{"route": s.route, "order": s.order, "client_bytes": s.nC, "client_post_eof_bytes": s.mC, "target_bytes": s.nT, "target_post_eof_bytes": s.mT,
-		"client_early_bytes": s.earlyC, "target_early_bytes": s.earlyT, "client_max_write": s.segC, "target_max_write": s.segT}
+		"client_early_bytes": s.earlyC, "target_early_bytes": s.earlyT, "client_max_write": s.segC, "target_max_write": s.segT, "client_quiet_ms": s.lullC.Milliseconds(), "target_quiet_ms": s.lullT.Milliseconds()}
 }
 
 func oneTunnel(run *lib.Run, hb *lib.Heartbeat, rt *route, s *script, r *lib.RNG, idx int) {
